@@ -28,6 +28,11 @@ TRUSTED = [
     'preservation of masks / unrelated coordinates / weights and non-modification of the input are observed with '
     'sc.identical on deep snapshots (harness flags); weights, variances, event order and bin membership are in addition '
     'compared inside Coq through the view by bins',
+    'call histories (re-conversion, chains, precomputed event coordinate, repeated calls): scipp\'s transform_coords rule '
+    '"a name that already is a coordinate is fetched, not recomputed" is MODELLED by coq/C06/ModelH.v (convert_named) and '
+    'compared per run for the target coordinate (Check.check_prev); the harness builds the history with the implementation '
+    'itself (the earlier calls are scippneutron.convert), translates the result\'s event ids into indices of the later '
+    'call\'s input buffer, and the generated histories are CONSISTENT (an existing target coordinate holds the dense value)',
 ]
 ASSUMPTIONS = [
     'the structural theorems are about the hand-written model of binned data; the tie to scipp is the per-run correspondence '
@@ -70,6 +75,82 @@ _MAIN = [p for p in PROGRAMS[:17]]
 _GEO = [p for p in PROGRAMS[17:]]
 
 
+_BY_TAG = {p[0]: p for p in PROGRAMS}
+# ---- call histories: the object handed to the OBSERVED convert() is not fresh.
+# kind -> how the input of the observed call (origin -> target of the base programme) came about
+#   reconvert    result of convert(x, tof -> T); observed: convert(that, tof -> T) again (T already an event + edge coord)
+#   chain-tof    result of convert(x, tof -> T1), T1 != T; observed: convert(that, tof -> T) (intermediates left over)
+#   chain        result of convert(x, tof -> O); observed: convert(that, O -> T), O in wavelength / energy
+#   chain3       result of convert(convert(x, tof -> O1), O1 -> O); observed: convert(that, O -> T)
+#   precomputed  fresh events "loaded" with a precomputed event coordinate T (value of the dense kernel); observed tof -> T
+#   repeat       fresh x that was already converted (result discarded) to T, or to another target; observed tof -> T
+HIST_KINDS = ['reconvert', 'chain-tof', 'chain', 'precomputed', 'reconvert', 'repeat', 'chain3', 'chain-tof', 'chain']
+_FROM_WAVELENGTH = ['energy/S', 'dspacing/S', 'Q/S', 'Q_vec/S', 'Qx/S', 'Qy/S', 'Qz/S', 'hkl_vec/S', 'h/S', 'k/S', 'l/S']
+_FROM_ENERGY = ['wavelength/S', 'dspacing/S']
+
+
+def gen_hist(rng, ptr, geometry):
+    """one history programme (or None): a base programme (target, scatter, mode) plus how its input came about"""
+    ptr.setdefault('hist', 0)
+    kind = HIST_KINDS[ptr['hist'] % len(HIST_KINDS)]
+    ptr['hist'] += 1
+    ok = lambda tag: not (_BY_TAG[tag][4] and geometry != 'positions')
+
+    def rr(name, pool):
+        ptr[name] = ptr.get(name, 0) + 1
+        return pool[ptr[name] % len(pool)]
+    pre, origin, discard, pc = [], 'tof', False, False
+    if kind in ('reconvert', 'repeat', 'precomputed'):
+        pool = [p[0] for p in _MAIN if ok(p[0])]
+        if kind != 'precomputed' and rng.random() < 0.15:
+            pool = [p[0] for p in _GEO if ok(p[0])] or pool
+        tag = rng.choice(pool)
+        if kind == 'precomputed':
+            pc = True
+        else:
+            t1 = _BY_TAG[tag][1]
+            if kind == 'repeat':
+                discard = True
+                if rng.random() < 0.5 and _BY_TAG[tag][3] is None and _BY_TAG[tag][2]:
+                    t1 = rng.choice([t for t in ('wavelength', 'dspacing', 'Q') if t != t1])   # a fork: x -> T1 and x -> T
+            pre = [['tof', t1]]
+            if kind == 'reconvert' and rng.random() < 0.25:
+                pre = pre * 2
+    elif kind == 'chain-tof':
+        tag = rng.choice([p[0] for p in _MAIN if ok(p[0])])
+        _, t2, scatter, inel, _ = _BY_TAG[tag]
+        firsts = ['wavelength'] + (['dspacing', 'Q'] if scatter else []) + ([] if inel else ['energy']) + \
+                 (['Q_vec', 'Qx'] if scatter and geometry == 'positions' else [])
+        firsts = [t for t in firsts if t != t2]
+        pre = [['tof', rng.choice(firsts)]]
+        if rng.random() < 0.3:
+            more = [t for t in firsts if t != pre[0][1]]
+            if more:
+                pre.append(['tof', rng.choice(more)])
+    elif kind == 'chain':
+        # the kernels that start from wavelength / energy are only reached through chains: round robin over them
+        if rng.random() < 0.75:
+            origin, tag = 'wavelength', rr('hw', [t for t in _FROM_WAVELENGTH if ok(t)])
+        else:
+            origin, tag = 'energy', rr('he', _FROM_ENERGY)
+        pre = [['tof', origin]]
+    else:  # chain3
+        if rng.random() < 0.5:
+            # (energy -> wavelength here would be a ROUND TRIP: scipp keeps the wavelength that is already there,
+            # computed from tof, which legitimately differs by 1 ulp from the value computed back from the energy)
+            pre, origin, tag = [['tof', 'wavelength'], ['wavelength', 'energy']], 'energy', 'dspacing/S'
+        else:
+            pre, origin = [['tof', 'energy'], ['energy', 'wavelength']], 'wavelength'
+            tag = rr('hw', [t for t in _FROM_WAVELENGTH if ok(t) and t != 'energy/S'])
+    _, target, scatter, inel, _ = _BY_TAG[tag]
+    path = '>'.join([pre[0][0]] + [s[1] for s in pre]) if pre else 'loaded'
+    p = {'tag': f'{tag}@{kind}({path},{origin})', 'target': target, 'scatter': scatter, 'inel': inel,
+         'hist': {'kind': kind, 'pre': pre, 'origin': origin, 'discard': discard, 'precomputed': pc}}
+    if inel:
+        p['e_dtype'] = rng.choices(['float64', 'float32', 'int64'], [70, 20, 10])[0]
+    return p
+
+
 def _sizes(rng, nb, style):
     if nb == 0:
         return []
@@ -92,7 +173,7 @@ def _sizes(rng, nb, style):
     return out
 
 
-def gen_case(rng, cid, ptr, n_prog, adversarial=False):
+def gen_case(rng, cid, ptr, n_prog, adversarial=False, hist_share=0.4):
     grid = rng.choices(['1d', 'outer', 'inner', 'flat2d'], [35, 35, 12, 18])[0]
     if grid == '1d':
         shape = [rng.choice([0] + list(range(1, 25))) if rng.random() < 0.03 else rng.randint(1, 24)]
@@ -180,6 +261,12 @@ def gen_case(rng, cid, ptr, n_prog, adversarial=False):
         if inel:
             p['e_dtype'] = rng.choices(['float64', 'float32', 'int64'], [70, 20, 10])[0]
         progs.append(p)
+    # a call history on ~hist_share of the layouts (own generator state: the layouts themselves do not depend on it)
+    hrng = random.Random(case['seed'] ^ 0x5EED)
+    if hrng.random() < hist_share:
+        h = gen_hist(hrng, ptr, geometry)
+        if h is not None:
+            progs.append(h)
     case['programs'] = progs
     return case
 
@@ -193,20 +280,36 @@ def summary_of(case, cres):
     return s
 
 
-def coq_case(cres):
-    L = cres['layout']
-    lt = (f'(mkL {L["nbuf"]} {L["begin"]} {L["end"]} {L["grid"]} {L["ncell"]} {L["assign"]} {L["cell"]} '
-          f'{L["w"]} {L["v"]})')
-    ps = []
+def _coq_layout(L):
+    return (f'(mkL {L["nbuf"]} {L["begin"]} {L["end"]} {L["grid"]} {L["ncell"]} {L["assign"]} {L["cell"]} '
+            f'{L["w"]} {L["v"]})')
+
+
+def _coq_program(pr):
+    c = pr['coq']
+    e = c['edge'] or {'egrid': 'LG1', 'ecell': '[]', 'eout': '[]', 'edense': '[]'}
+    flags = '[' + ';'.join('"%s"' % f for f in pr.get('flags', [])) + ']'
+    return (f'(mkP "{pr["tag"]}" {c["dense"]} {c["obegin"]} {c["oend"]} {c["oid"]} {c["oval"]} {c["ow"]} {c["ov"]} '
+            f'{e["egrid"]} {e["ecell"]} {e["eout"]} {e["edense"]} {flags} {c.get("prev", "[]")})')
+
+
+def coq_cases(cres):
+    """Coq terms of one harness case: the programmes on the fresh object share its layout; a programme with a call
+    history is a case of its own (its input - the result of the earlier calls - has its own buffer and bins)"""
+    terms = []
+    shared = [pr for pr in cres['programs'] if 'coq' in pr and 'own_layout' not in pr]
+    if shared and 'layout' in cres:
+        terms.append((f'(mkC {_coq_layout(cres["layout"])} [' + ';\n '.join(_coq_program(pr) for pr in shared) + '])',
+                      [pr['tag'] for pr in shared]))
     for pr in cres['programs']:
-        if 'coq' not in pr:
-            continue
-        c = pr['coq']
-        e = c['edge'] or {'egrid': 'LG1', 'ecell': '[]', 'eout': '[]', 'edense': '[]'}
-        flags = '[' + ';'.join('"%s"' % f for f in pr.get('flags', [])) + ']'
-        ps.append(f'(mkP "{pr["tag"]}" {c["dense"]} {c["obegin"]} {c["oend"]} {c["oid"]} {c["oval"]} {c["ow"]} {c["ov"]} '
-                  f'{e["egrid"]} {e["ecell"]} {e["eout"]} {e["edense"]} {flags})')
-    return f'(mkC {lt} [' + ';\n '.join(ps) + '])'
+        if 'coq' in pr and 'own_layout' in pr:
+            terms.append((f'(mkC {_coq_layout(pr["own_layout"])} [{_coq_program(pr)}])', [pr['tag']]))
+    return terms
+
+
+def key_tag(tag):
+    """violation keys name the input CLASS: base programme + kind of history, not the particular path"""
+    return tag.split('(')[0]
 
 
 def _run(ctx, cases, emit):
@@ -221,6 +324,18 @@ def _run(ctx, cases, emit):
         keys = res['graph_keys']
         ver = res['scipp']
     return out, keys, ver
+
+
+def _hist_text(prog, pr=None):
+    h = prog.get('hist')
+    if not h:
+        return ''
+    t = f' [call history {h["kind"]}: earlier ' + ', '.join(f'convert({o} -> {t})' for o, t in h['pre'])
+    t += ' (results discarded)' if h.get('discard') else ''
+    t += ' events loaded with a precomputed target coordinate' if h.get('precomputed') else ''
+    if pr and pr.get('error_in'):
+        t += '; raised in ' + pr['error_in']
+    return t + ']'
 
 
 def _judge_py(ctx, case, cres, where):
@@ -241,24 +356,25 @@ def _judge_py(ctx, case, cres, where):
                 # one input class whatever the target: the data's dim order differs from that of the 2-d geometry
                 key = f'raises-{exc}:transposed-2d-pixel-grid'
             else:
-                key = f'{prog["tag"]}:raises-{exc}:{case["grid"]}:{vk}'
+                key = f'{key_tag(prog["tag"])}:raises-{exc}:{case["grid"]}:{vk}'
             ctx.violation(key,
-                          f'convert(binned, tof -> {prog["target"]}, scatter={prog["scatter"]}) raises {pr["error"]} on layout '
+                          f'convert(binned, {(prog.get("hist") or {}).get("origin", "tof")} -> {prog["target"]}, '
+                          f'scatter={prog["scatter"]}){_hist_text(prog, pr)} raises {pr["error"]} on layout '
                           f'{summary_of(case, cres)}', {'case': one, 'error': pr['error']})
             n += 1
             continue
         if where == 'py':
             for f in pr.get('flags', []):
-                ctx.violation(f'{prog["tag"]}:flag-{f}', f'{prog["tag"]}: {f} on layout {summary_of(case, cres)}',
+                ctx.violation(f'{key_tag(prog["tag"])}:flag-{f}', f'{prog["tag"]}: {f} on layout {summary_of(case, cres)}',
                               {'case': one, 'flag': f})
                 n += 1
             py = pr.get('py', {})
             if py.get('mismatch'):
-                ctx.violation(f'{prog["tag"]}:value', f'{prog["tag"]}: {py["mismatch"]} event values differ from the dense kernel '
+                ctx.violation(f'{key_tag(prog["tag"])}:value', f'{prog["tag"]}: {py["mismatch"]} event values differ from the dense kernel '
                               f'(max {py.get("max_ulp")} ulp) on layout {summary_of(case, cres)}', {'case': one, 'py': py})
                 n += 1
             if py.get('edge_mismatch'):
-                ctx.violation(f'{prog["tag"]}:edge-value', f'{prog["tag"]}: {py["edge_mismatch"]} converted bin edges differ from the '
+                ctx.violation(f'{key_tag(prog["tag"])}:edge-value', f'{prog["tag"]}: {py["edge_mismatch"]} converted bin edges differ from the '
                               f'dense kernel (max {py.get("edge_max_ulp")} ulp) on layout {summary_of(case, cres)}',
                               {'case': one, 'py': py})
                 n += 1
@@ -283,37 +399,58 @@ def correspondence(ctx):
                 uncovered.append(f'{mode}:{key}')
     if uncovered:
         ctx.note('graph nodes without a C06 programme (extend PROGRAMS in props/C06.py): ' + ', '.join(uncovered))
-    terms, owners = [], []
+    terms, owners, layouts = [], [], []
     disagreements = 0
     for case, cres in zip(cases, results):
         disagreements += _judge_py(ctx, case, cres, 'coq')
-        if 'layout' in cres and any('coq' in pr for pr in cres['programs']):
-            terms.append(coq_case(cres))
-            owners.append((case, cres))
+        ts = coq_cases(cres)
+        terms.extend(t for t, _ in ts)
+        owners.extend((case, cres, tags) for _, tags in ts)
+        if ts:
+            layouts.append((case, cres))
     header = ('From Coq Require Import List String Uint63.\n'
               'From Verif.C06 Require Import Model Check.\nFrom Verif.Sem Require Import Corr.\n'
               'Import ListNotations.\nOpen Scope string_scope.\nOpen Scope uint63_scope.\n')
-    fails, errors = ctx.coq_eval_shards(header, terms, lambda k: 'Eval vm_compute in (report (map check cases)).\n',
-                                        shard=10)
+    footer = lambda k: 'Eval vm_compute in (report (map check cases)).\n'
+    # quick: <= 30 shards (two rounds on 16 cores); thorough: small shards
+    shard = max(10, -(-len(terms) // 30)) if ctx.tier == 'quick' else 14
+    fails, errors = ctx.coq_eval_shards(header, terms, footer, shard=shard)
+    # a shard whose coqc died without any output was killed from outside (OOM killer on a loaded machine): that is no
+    # verdict - evaluate its cases once more (any error that remains is reported)
+    still = []
+    for name, e in errors:
+        m = None if e.strip() else __import__('re').fullmatch(r'cases_(\d+)\.v', name)
+        if not m:
+            still.append((name, e))
+            continue
+        k0 = int(m.group(1)) * shard
+        f2, e2 = ctx.coq_eval_shards(header, terms[k0:k0 + shard], footer, shard=shard, prefix=f'cases_retry{m.group(1)}')
+        for i, why in f2.items():
+            fails[k0 + i] = why
+        still.extend(e2)
+    errors = still
     for name, e in errors:
         ctx.violation('corr-shard-error', f'correspondence shard {name} did not evaluate: {e[:300]}',
                       {'shard': name, 'error': e}, found_input=False)
     for i, why in sorted(fails.items()):
-        case, cres = owners[i]
+        case, cres, tags = owners[i]
         for part in why.split('|'):
             disagreements += 1
             tag, _, reason = part.rpartition('/')
             if part.startswith('layout/'):
                 tag, reason = 'layout', part[len('layout/'):]
-            progs = [p for p in case['programs'] if p['tag'] == tag] or case['programs'][:1]
+            progs = [p for p in case['programs'] if p['tag'] == tag] or \
+                [p for p in case['programs'] if p['tag'] == tags[0]]
+            if tag == 'layout' and '@' in tags[0]:
+                tag = 'layout@' + tags[0].split('@')[1].split('(')[0]     # the input of a later call of a history
             one = dict(case)
             one['programs'] = progs
             pys = [pr.get('py') for pr in cres['programs'] if pr.get('tag') == tag]
-            ctx.violation(f'{tag}:{reason}',
+            ctx.violation(f'{key_tag(tag)}:{reason}',
                           f'{tag}: the binned conversion differs from the model ({reason}; harness-side: {pys}) on layout '
                           f'{summary_of(case, cres)}', {'case': one, 'reason': part, 'py': pys})
     # ---- coverage
-    n_programs = sum(1 for _, cres in owners for pr in cres['programs'] if 'coq' in pr)
+    n_programs = sum(1 for _, cres in layouts for pr in cres['programs'] if 'coq' in pr)
     per_tag, per_grid, per_view, per_dtype, per_style = {}, {}, {}, {}, {}
     events = 0
     edges = 0
@@ -321,7 +458,8 @@ def correspondence(ctx):
     max_ulp = 0
     contiguous_same = [0, 0]
     distinct = set()
-    for case, cres in owners:
+    per_hist, hist_events, preexisting = {}, 0, 0
+    for case, cres in layouts:
         per_grid[case['grid']] = per_grid.get(case['grid'], 0) + 1
         vk = case['view'][0] if case['view'] else 'none'
         if case['view'] and case['view'][0] == 'slice' and case['view'][4] != 1:
@@ -335,7 +473,13 @@ def correspondence(ctx):
         for pr in cres['programs']:
             if 'coq' not in pr:
                 continue
-            per_tag[pr['tag']] = per_tag.get(pr['tag'], 0) + 1
+            base_tag = pr['tag'].split('@')[0]
+            per_tag[base_tag] = per_tag.get(base_tag, 0) + 1
+            if pr.get('history'):
+                hk = pr['history'] + ('/dataset' if case['dataset'] else '')
+                per_hist[hk] = per_hist.get(hk, 0) + 1
+                hist_events += pr.get('n_in_bins', 0)
+                preexisting += 1 if pr.get('target_preexists') else 0
             events += pr.get('n_in_bins', 0)
             edges += (pr['coq']['edge'] or {}).get('n', 0)
             max_ulp = max(max_ulp, pr.get('py', {}).get('max_ulp') or 0, pr.get('py', {}).get('edge_max_ulp') or 0)
@@ -343,7 +487,7 @@ def correspondence(ctx):
                 contiguous_same[1] += 1
                 contiguous_same[0] += 1 if pr.get('indices_identical') else 0
             if pr.get('n_in_bins', 0) > 0:
-                distinct.add((pr['tag'], tuple(cres['summary']['begin']), tuple(bs), cres['summary']['grid'],
+                distinct.add((pr['tag'], pr.get('history'), tuple(cres['summary']['begin']), tuple(bs), cres['summary']['grid'],
                               case['tof_dtype'], case['geometry']))
     ctx.coverage.update({
         'programs': n_programs,
@@ -353,17 +497,30 @@ def correspondence(ctx):
         'rule': 'a programme = one binned layout (grid kind x shape x events per bin 0..40 with ~30% empty bins, all-empty and '
                 'single-huge-bin layouts, contiguous / gapped / permuted storage, ~30% slices, strided slices, integer indexing, '
                 'transposes of a parent; event tof float64/float32/int64 in us/ms/s/ns; per-pixel positions or Ltotal/two_theta/L1/L2; '
-                'pixel, 2-d and event masks; extra event and bin coordinates; optional 1-d/2-d tof bin edges; optional Dataset wrapper) '
+                'pixel, 2-d and event masks; extra event and bin coordinates; optional 1-d/2-d tof bin edges; optional Dataset wrapper; '
+                'on ~40% of the layouts one more programme with a CALL HISTORY, see call_histories) '
                 'x one target reachable from tof (graph nodes enumerated from conversion_graph at run time), compared in Coq '
                 'event by event (bit identity) through the model\'s bin_of/gidx; non-trivial = at least one event lies in a bin; '
                 'distinct = distinct (target, begin, sizes, grid, tof dtype, geometry kind)',
-        'samples': [summary_of(c, r) for c, r in (owners[:3] + owners[-2:])],
-        'layouts': len(owners),
+        'samples': [summary_of(c, r) for c, r in (layouts[:3] + layouts[-2:])],
+        'layouts': len(layouts),
         'event_values_compared': events,
         'edge_values_compared': edges,
         'bins': total_bins, 'empty_bins': empty_bins,
         'per_target': per_tag, 'per_grid': per_grid, 'per_view': per_view, 'per_tof_dtype': per_dtype,
         'per_style_storage': per_style,
+        'call_histories': {'programmes': sum(per_hist.values()), 'per_kind': per_hist, 'event_values_compared': hist_events,
+                           'input_already_carries_target_event_coordinate': preexisting,
+                           'kinds': 'reconvert = convert(convert(x, tof->T), tof->T) (also three times); chain-tof = '
+                                    'convert(convert(x, tof->T1), tof->T), one or two earlier targets; chain = '
+                                    'convert(convert(x, tof->O), O->T), O in wavelength/energy; chain3 = three calls '
+                                    'tof->wavelength->energy->dspacing / tof->energy->wavelength->T; precomputed = events '
+                                    'loaded with the dense value of T as event coordinate; repeat = x converted before, '
+                                    'result discarded (same or another target). The observed call is the LAST one; its '
+                                    'input (the earlier result) is deep-snapshotted incl. the set of event / bin '
+                                    'coordinates and masks; the dense reference is the formula on the origin coordinate '
+                                    'alone; round trips (energy->wavelength on data that already has the wavelength it '
+                                    'came from) are excluded: scipp keeps the existing coordinate, 1 ulp off the way back'},
         'max_ulp_event_vs_dense': max_ulp,
         'tolerance': '0 ulp (bit identity); no broadcasting-order allowance was needed',
         'bin_indices_identical_for_contiguous_inputs': f'{contiguous_same[0]}/{contiguous_same[1]}',
@@ -375,10 +532,14 @@ def correspondence(ctx):
 def search(ctx, broken):
     """an obligation broke (e.g. elem_unit / elem_dtype changed shape): evaluate the property statement itself on the
     implementation over adversarial layouts (all-empty, single huge bin, slices / strided views / transposes),
-    judged harness-side (python bit comparison with scipp's own bin assignment + sc.identical flags)."""
+    judged harness-side (python bit comparison with scipp's own bin assignment + sc.identical flags).
+    Every layout also carries a programme with a CALL HISTORY (re-conversion, chains, precomputed event coordinate,
+    repeated calls): code that only runs when the input already has coordinates named like the target or like
+    intermediate results (the usual shape of an `exercise:...core/conversions.py:<new helper>` obligation) is reached
+    by those."""
     rng = random.Random(ctx.seed + 6)
     ptr = {'layout': 0, 'main': 0, 'geo': 0}
-    cases = [gen_case(rng, 100000 + i, ptr, 3, adversarial=True) for i in range(80)]
+    cases = [gen_case(rng, 100000 + i, ptr, 3, adversarial=True, hist_share=1.0) for i in range(80)]
     results, _, _ = _run(ctx, cases, 'py')
     found = []
     for case, cres in zip(cases, results):
@@ -407,6 +568,9 @@ def replay(ctx, obj):
     print('layout:', json.dumps(summary_of(case, cres)))
     bad = 0
     for prog, pr in zip(case['programs'], cres['programs']):
+        if prog.get('hist'):
+            print(f'{prog["tag"]}: the OBSERVED call is convert({prog["hist"].get("origin", "tof")} -> {prog["target"]}) on the '
+                  f'object with the{_hist_text(prog, pr)}; flags input-* are about THAT object (deep snapshot before the call)')
         print(f'{prog["tag"]}: required: every event value bit-identical to the dense kernel, no flag;  observed:',
               json.dumps({k: pr.get(k) for k in ('error', 'harness_error', 'flags', 'py', 'result') if k in pr}))
         if pr.get('error') or pr.get('flags') or (pr.get('py') or {}).get('mismatch') or (pr.get('py') or {}).get('edge_mismatch'):
@@ -416,13 +580,17 @@ def replay(ctx, obj):
     return 1 if bad else 0
 
 
-LEVEL_TEXT = ('Translation validation: on every run, ~1200 (quick) (binned layout, target) programmes - every node of the tof '
+LEVEL_TEXT = ('Translation validation: on every run, ~1300 (quick) (binned layout, target) programmes - ~120 of them with a call '
+              'history (input = result of earlier conversions: re-conversion, chains tof->wavelength->energy, precomputed event '
+              'coordinate, repeated calls; deep snapshot of THAT input incl. its set of event coordinates) - every node of the tof '
               'conversion graphs x 1-d/2-d grids, empty/uneven/huge bins, gaps, permuted storage, slices and transposes, '
               'float32/float64/int64 events - are run through scippneutron.convert and through the Coq model of binned data '
               '(bin_of, convert_binned) instantiated with the separately evaluated dense kernel; event values and bin edges must be '
               'bit-identical, weights/variances/order/membership equal (compared by vm_compute), masks/coordinates/input identical '
               '(sc.identical). Proved (axiom-free) about the model: bin_of is total and correct for non-overlapping bins, '
-              'conversion is point-wise the dense kernel with the bin\'s geometry, everything else is preserved, edges go through the same function.')
+              'conversion is point-wise the dense kernel with the bin\'s geometry, everything else is preserved, edges go through the same function; '
+              'for events with named coordinates: re-conversion is idempotent and again gives the dense value, an existing target and all '
+              'other coordinates are kept, chains compose the kernels point-wise.')
 LEVEL_NOTE = ('The substance (scipp\'s C++ binned-data engine) is modelled, not verified; the level is dominated by the correspondence. '
               'Trusted: Coq kernel incl. primitive Uint63 for the case data, harness serialisation, py2coq, Sem/Val.v dense element model.')
 TECHNIQUE = 'Coq model of binned data + structural proofs; per-run translation validation of (layout, target) programmes by vm_compute'
